@@ -4,12 +4,9 @@ set -e
 . "$(dirname "$0")/env.sh"
 cd "$VERIF_ROOT/harness"
 mkdir -p "$VERIF_ROOT/.work" "$VERIF_ROOT/.cache"
-MODCACHE="$(go env GOMODCACHE)"
-cat > "$VERIF_ROOT/.work/overlay.json" <<EOT
-{"Replace": {"$MODCACHE/github.com/jirenius/timerqueue@v1.0.0/timerqueue.go": "$VERIF_ROOT/overlay/timerqueue.go"}}
-EOT
-cp /repo/go.sum "$VERIF_ROOT/harness/go.sum" 2>/dev/null || true
 # serialise concurrent builds
 exec 9>"$VERIF_ROOT/.work/build.lock"
 flock 9
+python3 "$VERIF_ROOT/bin/gen_overlay.py"
+cp /repo/go.sum "$VERIF_ROOT/harness/go.sum" 2>/dev/null || true
 go build -tags verif -overlay "$VERIF_ROOT/.work/overlay.json" -o "$VERIF_ROOT/.work/resmc" ./cmd/resmc
